@@ -198,15 +198,15 @@ class CMSSuite(Suite):
                     D["err:" + res[1]] += 1
                 if any(v in (2**31 - 1, -(2**31)) for v in obj._bins):
                     D["saturated-step"] += 1
-                out.append((f"cm.{op[0]} {h} {tok(h, key)} n={n}", self.obs(kind, obj, ret_str(res))))
+                out.append((f"cm.{op[0]} {h} {tok(h, key)} n={n} k={kind}", self.obs(kind, obj, ret_str(res))))
             elif op[0] == "chk":
                 key = op[2]
                 res = call(obj.check, key)
-                out.append((f"cm.chk {h} {tok(h, key)}", self.obs(kind, obj, ret_str(res))))
+                out.append((f"cm.chk {h} {tok(h, key)} k={kind}", self.obs(kind, obj, ret_str(res))))
             elif op[0] == "chkall":
                 for key in universe:
                     res = call(obj.check, key)
-                    out.append((f"cm.chk {h} {tok(h, key)}", {"ret": ret_str(res)}))
+                    out.append((f"cm.chk {h} {tok(h, key)} k={kind}", {"ret": ret_str(res)}))
             elif op[0] == "join":
                 a, b = op[1], op[2]
                 if b not in objs:
